@@ -219,7 +219,7 @@ Definition unmerge_adm (cbm g : N) (st : store) : outcome :=
 
 (* ---- snapshot / rollback ---- *)
 Definition snapshot (cbm new : N) (st : store) : outcome :=
-  if negb (gexists cbm st) then OErr EAttr st else OOk (clone cbm new st).   (* extract_graph None -> .copy() *)
+  if negb (gexists cbm st) then OErr EPGQ st else OOk (clone cbm new st).   (* clone_graph: "Unable to find graph" (fix fdc67eb) *)
 Definition rollback (cbm sid : N) (st : store) : outcome :=
   let st1 := delete_graph cbm st in
   if negb (gexists sid st1) then OErr EAssert st1 else rehome sid cbm st1.
